@@ -148,6 +148,12 @@ def run(cx: Cx):
             cx.violation('R-SHARED', ainit.qualname, 'fresh-components-per-instance',
                          f"Agent.__init__ does not allocate a fresh components dict per instance (found {v!r})", where=cx.where(ainit))
         tags = [e for e in p.events if e.kind == 'store' and e.data.get('attr') == 'tag' and _rooted_at(e.data.get('target'), self_s)]
+        if len(tags) == 0 and tagp is not None:
+            cx.violation('R-DYN', ainit.qualname, 'tag-received-at-creation',
+                         f"Agent.__init__ stores no tag on a path [{p.cond!r}]: an agent created without an explicit tag receives the default "
+                         f"tag its class has AT THAT MOMENT - left to a later lookup, a change of the class default retroactively changes "
+                         f"the tag of agents that already exist", where=cx.where(ainit), path=p.lines())
+            continue
         if len(tags) != 1 or tagp is None:
             cx.inconclusive('R-DYN', 'Agent.__init__ tag store', f"{len(tags)} stores to self.tag on a constructor path",
                             where=cx.where(ainit), function=ainit.qualname)
@@ -240,10 +246,11 @@ def run(cx: Cx):
     check_atomic(cx, remi.qualname, ['ComponentNotFoundError'])
     for fn, loc, field in ((addc, MC, '_components'), (addi, AC, 'components')):
         comp = Sym(fn.params[1])
-        check_keyed_insert(cx, fn.qualname, loc, Attr(Sym(fn.params[0]), field), App('type', (comp,)), comp)
+        check_keyed_insert(cx, fn.qualname, loc, Attr(Sym(fn.params[0]), field), App('type', (comp,)), comp, dup_exc='ValueError')
     for fn, loc, field in ((remc, MC, '_components'), (remi, AC, 'components')):
-        check_keyed_delete(cx, fn.qualname, loc, Attr(Sym(fn.params[0]), field), Sym(fn.params[1]))
+        check_keyed_delete(cx, fn.qualname, loc, Attr(Sym(fn.params[0]), field), Sym(fn.params[1]), missing_exc='ComponentNotFoundError')
     _lookups(cx)
+    _membership(cx)
     from .c13 import check_has_all
     check_has_all(cx, META + '.has_class_component', '_components')
     check_has_all(cx, CORE + 'Agent.has_component', 'components')
@@ -269,3 +276,45 @@ def _lookups(cx: Cx):
     check_presence_not_truthiness(cx, [gcc.qualname, gic.qualname, META + '.add_class_component', META + '.remove_class_component',
                                        CORE + 'Agent.add_component', CORE + 'Agent.remove_component',
                                        META + '.has_class_component', CORE + 'Agent.has_component'])
+
+
+def _membership(cx: Cx):
+    """`T in Cls` / `T in agent`: exactly `T in <store>` for the key as given (no conversion of the key - a class that has a
+    metaclass of its own is still a class, not "an object whose type is meant")."""
+    from sa.walker import _Ctx, State
+    from sa.terms import f_or, f_and, compare, BoolT, FFalse, AIn
+    for q, field in ((META + '.__contains__', '_components'), (CORE + 'Agent.__contains__', 'components')):
+        fn = cx.fn(q)
+        if len(fn.params) < 2:
+            continue
+        item = Sym(fn.params[1])
+        store = Attr(Sym(fn.params[0]), field)
+        acc = []
+        bad = None
+        for p in cx.walker.paths(fn, WalkOptions(unroll=1, callee_raises=False)):
+            if p.end != 'return':
+                bad = bad or f"a path ends in {p.end}"
+                continue
+            v = p.last.data.get('value')
+            hv = strip_versions(v)
+            if isinstance(hv, App) and hv.fn.startswith('call:') and hv.fn.rsplit('.', 1)[-1] in ('has_component', 'has_class_component') \
+                    and not hv.kw and tuple(strip_versions(a) for a in hv.args[-1:]) == (item,) and len(hv.args) <= 2:
+                # forwarded to the all-of test (verified above) with the key as given
+                acc.append(f_and(p.cond, AIn(item, store)))
+                continue
+            try:
+                f = _Ctx(cx.walker, fn, WalkOptions()).formula(v, State()) if v is not None else None
+            except Exception:
+                f = None
+            if f is None:
+                bad = bad or f"returns {v!r}"
+                continue
+            acc.append(f_and(p.cond, f))
+        got = f_or(*acc) if acc else FFalse
+        cex = None if bad else compare(got, AIn(item, store))
+        if bad or cex is not None:
+            cx.violation('R-GUARD', fn.qualname, 'membership-of-the-key-as-given',
+                         f"{fn.qualname} answers `{fn.params[1]} in ...` with [{got!r}] ({bad or 'differs at ' + str({k: v for k, v in cex.items() if not k.startswith('_')})}); "
+                         f"it must be exactly [{AIn(item, store)!r}]", where=cx.where(fn))
+        else:
+            cx.ok('R-GUARD', f"{fn.name}: `key in owner` is `key in {field}`", where=cx.where(fn), function=fn.qualname)
